@@ -1,5 +1,5 @@
 import QuriVerif.Props.C01Pipeline
-import Mathlib.Analysis.Complex.Basic
+import QuriVerif.Proof.PhaseUnit
 /-
   C01, "up to a GLOBAL PHASE": closes the gap recorded in DESIGN §6 C01 ("that two proportional unitaries
   differ by a unit-modulus factor is not formalised").
@@ -20,59 +20,9 @@ import Mathlib.Analysis.Complex.Basic
   either: `z = 0` contradicts the norm hypothesis.
 -/
 namespace QV.Props.C01Phase
-open QV QV.C01 QV.Props.C01Pass QV.Props.C01Pipeline
+open QV QV.C01 QV.Phase QV.Props.C01Pass QV.Props.C01Pipeline
 
-/-- squared norm of row `i` of the `d × d` block -/
-noncomputable def rowNormSq (d : ℕ) (F : ℕ → ℕ → ℂ) (i : ℕ) : ℝ :=
-  ((List.range d).map fun k => Complex.normSq (F i k)).sum
-
-theorem sum_map_mul_left (l : List ℕ) (a : ℝ) (f : ℕ → ℝ) :
-    (l.map fun k => a * f k).sum = a * (l.map f).sum := by
-  induction l with
-  | nil => simp
-  | cons x l ih => simp only [List.map_cons, List.sum_cons, ih]; ring
-
-theorem sum_map_congr (l : List ℕ) (f g : ℕ → ℝ) (h : ∀ k ∈ l, f k = g k) :
-    (l.map f).sum = (l.map g).sum := by
-  induction l with
-  | nil => rfl
-  | cons x l ih =>
-    simp only [List.map_cons, List.sum_cons]
-    rw [h x (by simp), ih (fun k hk => h k (by simp [hk]))]
-
-/-- proportional blocks have proportional row norms -/
-theorem scalar_normSq (d : ℕ) (F G : ℕ → ℕ → ℂ) (z : ℂ)
-    (h : ∀ r, r < d → ∀ j, j < d → F r j = z * G r j) (i : ℕ) (hi : i < d) :
-    rowNormSq d F i = Complex.normSq z * rowNormSq d G i := by
-  unfold rowNormSq
-  rw [← sum_map_mul_left]
-  apply sum_map_congr
-  intro k hk
-  rw [h i hi k (List.mem_range.mp hk), Complex.normSq_mul]
-
-/-- **the factor is a phase**: equal non-zero row norms force `|z| = 1` -/
-theorem unit_phase (d : ℕ) (F G : ℕ → ℕ → ℂ) (z : ℂ)
-    (h : ∀ r, r < d → ∀ j, j < d → F r j = z * G r j) (i : ℕ) (hi : i < d)
-    (hn : rowNormSq d F i = rowNormSq d G i) (hG : rowNormSq d G i ≠ 0) : ‖z‖ = 1 := by
-  have e := scalar_normSq d F G z h i hi
-  rw [hn] at e
-  have h1 : Complex.normSq z = 1 := by
-    have : (Complex.normSq z - 1) * rowNormSq d G i = 0 := by linarith
-    rcases mul_eq_zero.mp this with h | h
-    · linarith
-    · exact absurd h hG
-  rw [Complex.normSq_eq_norm_sq] at h1
-  have h0 : 0 ≤ ‖z‖ := norm_nonneg z
-  nlinarith [h1, h0]
-
-/-- rows orthonormal on the block (only the diagonal part is needed) -/
-def RowsNormal (d : ℕ) (F : ℕ → ℕ → ℂ) : Prop := ∀ i, i < d → rowNormSq d F i = 1
-
-/-- **textbook form**: two operators with unit rows that are proportional differ by a unit-modulus factor -/
-theorem unit_phase_of_unitary (d : ℕ) (hd : 0 < d) (F G : ℕ → ℕ → ℂ) (z : ℂ)
-    (h : ∀ r, r < d → ∀ j, j < d → F r j = z * G r j)
-    (hF : RowsNormal d F) (hG : RowsNormal d G) : ‖z‖ = 1 :=
-  unit_phase d F G z h 0 hd (by rw [hF 0 hd, hG 0 hd]) (by rw [hG 0 hd]; exact one_ne_zero)
+export QV.Phase (rowNormSq scalar_normSq unit_phase unit_phase_of_unitary RowsNormal)
 
 /-- **for the pipeline theorems**: every witness `z` of `OpEqvC n c c'` is a phase as soon as one row of the
     two (identically scaled) operators has the same non-zero norm. -/
